@@ -634,7 +634,7 @@ def case_polygons(case):
         thr = threshold()
         for tail in case["tails"]:
             K = np.array(head + tail, dtype=float)
-            if not in_view(model, transformed(tf, K)):
+            if not case.get("offscreen") and not in_view(model, transformed(tf, K)):
                 summ.add("skipped:out-of-view")
                 continue
             poly = hyperbolic.Polygon(kpoint(K))
@@ -955,7 +955,7 @@ def case_geodesics(case):
         v += v0
         thr = threshold()
         for b in case["bs"]:
-            if not geodesic_in_domain(model, kind, transformed(tf, a), transformed(tf, b)):
+            if not (case.get("offscreen") and kind == "segment") and not geodesic_in_domain(model, kind, transformed(tf, a), transformed(tf, b)):
                 summ.add("skipped")
                 continue
             if kind == "segment":
@@ -1713,6 +1713,33 @@ def halfplane_infinity_cases(sub):
         yield {"polys": quads[s:s + 40]}
 
 
+# half-plane: FINITE vertices beyond the default view (x in (-6, 6), off-screen bounds +-7.2, y in (-0.1, 8)): they are ordinary
+# vertices (only the point at infinity / ideal points are 'at infinity'), so an edge above RADIUS_THRESHOLD is the chord
+HP_NEAR = [[0.0, 1.0], [3.0, 2.0], [-2.0, 0.5], [5.0, 4.0]]
+HP_FAR = [[sx * x, y] for x in (20.0, 200.0) for sx in (1.0, -1.0) for y in (1.0, 100.0)]
+
+
+def halfplane_offscreen_cases():
+    """All ordered non-degenerate triangles over HP_NEAR + HP_FAR with at least one vertex of HP_FAR (identity drawing
+    transform; vertices handed over in Klein coordinates like everywhere else), and all segments with one or both end
+    points in HP_FAR."""
+    pts = [[float(c) for c in hyp.to_klein("halfspace", np.array(x))] for x in HP_NEAR + HP_FAR]
+    nn = len(HP_NEAR)
+    base = {"model": "halfspace", "tf": "id", "offscreen": True}
+    for i, j in itertools.permutations(range(len(pts)), 2):
+        tails = [[pts[l]] for l in range(len(pts)) if l not in (i, j) and max(i, j, l) >= nn and nondegenerate([pts[i], pts[j], pts[l]])]
+        yield dict(base, call="polygons", head=[pts[i], pts[j]], tails=tails)
+    for i in range(len(pts)):
+        yield dict(base, call="geodesics", kind="segment", a=pts[i], bs=[pts[j] for j in range(len(pts)) if j != i and max(i, j) >= nn])
+
+
+def case_halfplane_offscreen(case):
+    r = case_polygons(case) if case["call"] == "polygons" else case_geodesics(case)
+    for x in r["v"]:
+        x["key"] += "/offscreen-finite-vertex"
+    return r
+
+
 def case_halfplane_straight(case):
     r = case_polygons(case) if case["call"] == "polygons" else case_geodesics(case)
     for x in r["v"]:
@@ -2042,8 +2069,8 @@ def run(ctx):
                "domain of its single drawing; members are taken from the lattice and, under a non-trivial drawing transform, also from the "
                "preimage of the lattice (Klein radius <= 0.97 before, <= 0.9 after the transform); the half-plane's point at infinity occurs "
                "only as the exact vector (1, 0) after the transform")
-    ctx.assume("half-plane: finite vertices/end points have |x| <= 7 (inside the default view's off-screen bounds +-7.2); ideal "
-               "points are the point at infinity exactly or >= 0.1 rad away from it; other tuples are skipped and counted as 'skipped'")
+    ctx.assume("half-plane: finite vertices/end points have |x| <= 7 (inside the default view's off-screen bounds +-7.2; beyond them only in the section "
+               "halfplane-offscreen-vertices); ideal points are the point at infinity exactly or >= 0.1 rad away from it; other tuples are skipped and counted as 'skipped'")
     ctx.assume("edges whose oracle circle radius lies within 1e-4 (relative) of RADIUS_THRESHOLD may be drawn either way")
     ctx.assume("above RADIUS_THRESHOLD the accepted straight substitute is the chord between the two end points, in both conformal models "
                "(it starts and ends at the vertices / end points); in the half-plane the vertical ray to beyond the top of the view when one end is the point at infinity")
@@ -2144,6 +2171,14 @@ def run(ctx):
             domains={"model": "halfspace", "transforms": list(TFS), "straight edges (half-plane coordinates, after the drawing transform)": HP_STRAIGHT,
                      "polygons": "the edge first / reversed with every third vertex of 8 lattice points and quadrilaterals; the edge in the middle and last",
                      "segments": "the edge in both directions", "keys": "the polygon / geodesic keys with the suffix /large-radius-non-vertical"}, chunk=2)
+
+    ctx.assume("half-plane, section halfplane-offscreen-vertices: finite vertices / segment end points beyond the default view (x = +-20, +-200, y = 1, 100; "
+               "Klein radius up to 0.99997) are ordinary vertices: the path visits them, an edge above RADIUS_THRESHOLD is the chord between its two end points")
+    product("halfplane-offscreen-vertices", "checks.c19:case_halfplane_offscreen", list(halfplane_offscreen_cases()),
+            domains={"model": "halfspace", "transform": "id", "vertices in the view (half-plane coordinates)": HP_NEAR, "vertices beyond the view": HP_FAR,
+                     "polygons": "all ordered non-degenerate triangles over the %d points with at least one vertex beyond the view" % (len(HP_NEAR) + len(HP_FAR)),
+                     "segments": "all ordered pairs with at least one end point beyond the view",
+                     "keys": "the polygon / geodesic keys with the suffix /offscreen-finite-vertex"}, chunk=2)
 
     ctx.assume("half-plane polygons with one vertex at the point at infinity (section halfplane-vertex-at-infinity; the other vertices interior points of the view "
                "with abscissae >= 0.05 apart): the vertex at infinity is drawn as a point above the top of the view on the vertical through the neighbouring "
